@@ -1041,4 +1041,821 @@ theorem runCalls_ext : ∀ (calls : List (Sp × Val)) (h : Heap), Ext h (runCall
     simp only [runCalls]
     exact (evalAuto_ext c.1 c.2 h).trans (ih _)
 
+
+/-! ## evaluations commute with relocation of the objects they create: the outcome does not depend on
+    what else the heap holds -/
+
+/-- the objects created after address `n0` moved by `k` places (an evaluation started in a heap
+    that holds `k` more objects allocates its new objects `k` places further) -/
+def relocAddr (n0 k a : Nat) : Nat := if a < n0 then a else a + k
+
+def reloc (n0 k : Nat) : Val → Val
+  | .ref a => .ref (relocAddr n0 k a)
+  | v => v
+
+def relocObj (n0 k : Nat) : Obj → Obj
+  | .list c xs => .list c (xs.map (reloc n0 k))
+  | .tuple c xs => .tuple c (xs.map (reloc n0 k))
+  | .set c xs => .set c (xs.map (reloc n0 k))
+  | .dict c es => .dict c (es.map (fun e => (reloc n0 k e.1, reloc n0 k e.2)))
+  | .inst c as => .inst c (as.map (fun e => (e.1, reloc n0 k e.2)))
+
+/-- the two heaps hold the same objects up to relocation -/
+def Rel (n0 k : Nat) (h1 h2 : Heap) : Prop :=
+  n0 ≤ h1.length ∧ h2.length = h1.length + k ∧
+  ∀ a, a < h1.length → h2[relocAddr n0 k a]? = (h1[a]?).map (relocObj n0 k)
+
+variable {n0 k : Nat}
+
+theorem relocAddr_inj {a b : Nat} (h : relocAddr n0 k a = relocAddr n0 k b) : a = b := by
+  unfold relocAddr at h
+  split at h <;> split at h <;> omega
+
+theorem relocAddr_ge {a : Nat} (h : n0 ≤ a) : relocAddr n0 k a = a + k := by
+  unfold relocAddr; split <;> omega
+
+theorem reloc_inj {x y : Val} (h : reloc n0 k x = reloc n0 k y) : x = y := by
+  cases x <;> cases y <;> simp [reloc] at h ⊢ <;> first | exact h | exact relocAddr_inj h
+
+theorem scalarPV_reloc (v : Val) : scalarPV (reloc n0 k v) = scalarPV v := by
+  cases v <;> rfl
+
+theorem reloc_scalar {v : Val} {p : PV} (h : scalarPV v = some p) : reloc n0 k v = v := by
+  cases v <;> simp [scalarPV] at h <;> rfl
+
+theorem reloc_not_ref {v : Val} (h : ∀ a, v ≠ .ref a) : reloc n0 k v = v := by
+  cases v <;> first | rfl | exact absurd rfl (h _)
+
+theorem pyKeyEq_reloc (x y : Val) : pyKeyEq (reloc n0 k x) (reloc n0 k y) = pyKeyEq x y := by
+  cases x <;> cases y <;> simp [reloc, pyKeyEq]
+  rename_i a b
+  by_cases hab : a = b
+  · subst hab; simp
+  · have : relocAddr n0 k a ≠ relocAddr n0 k b := fun hh => hab (relocAddr_inj hh)
+    have h1 : (relocAddr n0 k a == relocAddr n0 k b) = false := beq_eq_false_iff_ne.mpr this
+    have h2 : (a == b) = false := beq_eq_false_iff_ne.mpr hab
+    rw [h1, h2]
+
+theorem Rel.get {h1 h2 : Heap} (hr : Rel n0 k h1 h2) (a : Nat) :
+    h2[relocAddr n0 k a]? = (h1[a]?).map (relocObj n0 k) := by
+  rcases Nat.lt_or_ge a h1.length with hl | hl
+  · exact hr.2.2 a hl
+  · have h1n : h1[a]? = none := List.getElem?_eq_none hl
+    have : h2.length ≤ relocAddr n0 k a := by
+      rw [relocAddr_ge (Nat.le_trans hr.1 hl), hr.2.1]; omega
+    rw [List.getElem?_eq_none this, h1n]; rfl
+
+theorem Rel.push {h1 h2 : Heap} (hr : Rel n0 k h1 h2) (o : Obj) :
+    Rel n0 k (h1 ++ [o]) (h2 ++ [relocObj n0 k o]) := by
+  refine ⟨by simp; have := hr.1; omega, by simp [hr.2.1]; omega, ?_⟩
+  intro a ha
+  simp only [List.length_append, List.length_cons, List.length_nil] at ha
+  rcases Nat.lt_or_ge a h1.length with hl | hl
+  · have hl2 : relocAddr n0 k a < h2.length := by
+      unfold relocAddr; split
+      · have := hr.1; have := hr.2.1; omega
+      · have := hr.2.1; omega
+    rw [List.getElem?_append_left hl2, List.getElem?_append_left hl]
+    exact hr.2.2 a hl
+  · have ha' : a = h1.length := by omega
+    subst ha'
+    rw [relocAddr_ge hr.1]
+    have : h1.length + k = h2.length := hr.2.1.symm
+    rw [this]
+    simp
+
+theorem Rel.new_addr {h1 h2 : Heap} (hr : Rel n0 k h1 h2) :
+    reloc n0 k (.ref h1.length) = .ref h2.length := by
+  simp only [reloc, relocAddr_ge hr.1, hr.2.1]
+
+/-! ### shapes -/
+
+def relocSh (n0 k : Nat) : Sh → Sh
+  | .scalar p => .scalar p
+  | .list xs => .list (xs.map (reloc n0 k))
+  | .bytes xs => .bytes (xs.map (reloc n0 k))
+  | .tuple xs => .tuple (xs.map (reloc n0 k))
+  | .set f xs => .set f (xs.map (reloc n0 k))
+  | .dict es => .dict (es.map (fun e => (reloc n0 k e.1, reloc n0 k e.2)))
+  | .other => .other
+
+theorem shapeOfObj_reloc (o : Obj) : shapeOfObj (relocObj n0 k o) = relocSh n0 k (shapeOfObj o) := by
+  cases o <;> simp only [relocObj, shapeOfObj]
+  all_goals first
+    | rfl
+    | (split <;> first | rfl | (split <;> rfl))
+
+theorem shapeOf_reloc {h1 h2 : Heap} (hr : Rel n0 k h1 h2) (v : Val) :
+    shapeOf h2 (reloc n0 k v) = relocSh n0 k (shapeOf h1 v) := by
+  unfold shapeOf
+  rw [scalarPV_reloc]
+  cases hs : scalarPV v with
+  | some p => rfl
+  | none =>
+    cases v with
+    | ref a =>
+      simp only [reloc]
+      rw [hr.get a]
+      cases h1[a]? with
+      | none => rfl
+      | some o => simp only [Option.map]; exact shapeOfObj_reloc o
+    | _ => simp [scalarPV] at hs
+
+
+/-! ### lists, sets and dicts of relocated values -/
+
+theorem memK_reloc (xs : List Val) (x : Val) :
+    memK (xs.map (reloc n0 k)) (reloc n0 k x) = memK xs x := by
+  unfold memK
+  rw [List.any_map]
+  congr 1
+  funext y
+  exact pyKeyEq_reloc y x
+
+theorem dedupK_reloc : ∀ (xs acc : List Val),
+    dedupK (acc.map (reloc n0 k)) (xs.map (reloc n0 k)) = (dedupK acc xs).map (reloc n0 k) := by
+  intro xs
+  induction xs with
+  | nil => intro acc; rfl
+  | cons x r ih =>
+    intro acc
+    simp only [List.map_cons, dedupK, memK_reloc]
+    split
+    · exact ih acc
+    · have := ih (acc ++ [x])
+      simpa using this
+
+theorem filter_memK_reloc (xs ys : List Val) :
+    (xs.map (reloc n0 k)).filter (memK (ys.map (reloc n0 k))) = (xs.filter (memK ys)).map (reloc n0 k) := by
+  rw [List.filter_map]
+  congr 1
+  apply List.filter_congr
+  intro x _
+  exact memK_reloc ys x
+
+theorem filter_not_memK_reloc (xs ys : List Val) :
+    (xs.map (reloc n0 k)).filter (fun x => !memK (ys.map (reloc n0 k)) x) =
+      (xs.filter (fun x => !memK ys x)).map (reloc n0 k) := by
+  rw [List.filter_map]
+  congr 1
+  apply List.filter_congr
+  intro x _
+  simp only [Function.comp, memK_reloc]
+
+theorem setOp_reloc (b : BinOp) (xs ys : List Val) :
+    setOp b (xs.map (reloc n0 k)) (ys.map (reloc n0 k)) = (setOp b xs ys).map (fun zs => zs.map (reloc n0 k)) := by
+  cases b <;> simp only [setOp, Option.map, setUnion, setInter, setDiff, setSym, dedupK_reloc, filter_memK_reloc,
+    filter_not_memK_reloc, List.map_append]
+
+abbrev relocPair (n0 k : Nat) (e : Val × Val) : Val × Val := (reloc n0 k e.1, reloc n0 k e.2)
+
+theorem dictPut_reloc : ∀ (es : List (Val × Val)) (key v : Val),
+    dictPut (es.map (relocPair n0 k)) (reloc n0 k key) (reloc n0 k v) = (dictPut es key v).map (relocPair n0 k) := by
+  intro es
+  induction es with
+  | nil => intro key v; rfl
+  | cons e r ih =>
+    intro key v
+    obtain ⟨k', v'⟩ := e
+    simp only [List.map_cons, dictPut, pyKeyEq_reloc]
+    split
+    · rfl
+    · rw [ih key v]; rfl
+
+theorem dictMerge_reloc : ∀ (c a : List (Val × Val)),
+    dictMerge (a.map (relocPair n0 k)) (c.map (relocPair n0 k)) = (dictMerge a c).map (relocPair n0 k) := by
+  intro c
+  unfold dictMerge
+  induction c with
+  | nil => intro a; rfl
+  | cons e r ih =>
+    intro a
+    simp only [List.map_cons, List.foldl_cons]
+    have h1 : dictPut (a.map (relocPair n0 k)) (relocPair n0 k e).1 (relocPair n0 k e).2 =
+        (dictPut a e.1 e.2).map (relocPair n0 k) := dictPut_reloc a e.1 e.2
+    rw [h1]
+    exact ih _
+
+theorem dictLookup_reloc (es : List (Val × Val)) (key : Val) :
+    dictLookup (es.map (relocPair n0 k)) (reloc n0 k key) = (dictLookup es key).map (reloc n0 k) := by
+  unfold dictLookup
+  rw [List.find?_map]
+  have : ((fun e : Val × Val => pyKeyEq e.1 (reloc n0 k key)) ∘ relocPair n0 k) = fun e => pyKeyEq e.1 key := by
+    funext e; simp only [Function.comp, pyKeyEq_reloc]
+  rw [this]
+  cases es.find? (fun e => pyKeyEq e.1 key) <;> rfl
+
+theorem pyIndex_reloc (xs : List Val) (i : Int) :
+    pyIndex (xs.map (reloc n0 k)) i = (pyIndex xs i).map (reloc n0 k) := by
+  unfold pyIndex
+  simp only [List.length_map, List.getElem?_map]
+  repeat' split
+  all_goals simp
+
+theorem repeatList_reloc (xs : List Val) (n : Int) :
+    C02.repeatList (xs.map (reloc n0 k)) n = (C02.repeatList xs n).map (reloc n0 k) := by
+  unfold C02.repeatList
+  rw [List.map_flatten, List.map_replicate]
+
+theorem keyCheck_reloc {h1 h2 : Heap} (hr : Rel n0 k h1 h2) (key : Val) :
+    keyCheck h2 (reloc n0 k key) = keyCheck h1 key := by
+  cases key with
+  | ref a =>
+    simp only [reloc, keyCheck]
+    rw [hr.get a]
+    cases h1[a]? with
+    | none => rfl
+    | some o => cases o <;> rfl
+  | _ => rfl
+
+theorem keysCheck_reloc {h1 h2 : Heap} (hr : Rel n0 k h1 h2) :
+    ∀ (ks : List Val), keysCheck h2 (ks.map (reloc n0 k)) = keysCheck h1 ks := by
+  intro ks
+  induction ks with
+  | nil => rfl
+  | cons x r ih => simp only [List.map_cons, keysCheck, keyCheck_reloc hr, ih]
+
+/-! ### Python-level operations commute with relocation -/
+
+/-- the second run does what the first did, relocated -/
+def SimRes (n0 k : Nat) (r1 r2 : Res) : Prop :=
+  r2.1 = r1.1.map (reloc n0 k) ∧ Rel n0 k r1.2 r2.2
+
+theorem sim_alloc {h1 h2 : Heap} (hr : Rel n0 k h1 h2) (o1 o2 : Obj) (ho : o2 = relocObj n0 k o1) :
+    SimRes n0 k (alloc h1 o1) (alloc h2 o2) := by
+  subst ho
+  refine ⟨?_, hr.push o1⟩
+  simp only [alloc, Except.map]
+  rw [hr.new_addr]
+
+theorem sim_err {h1 h2 : Heap} (hr : Rel n0 k h1 h2) (e : PyExc) : SimRes n0 k (errR h1 e) (errR h2 e) :=
+  ⟨rfl, hr⟩
+
+theorem sim_ok {h1 h2 : Heap} (hr : Rel n0 k h1 h2) (v : Val) :
+    SimRes n0 k (okR h1 v) (okR h2 (reloc n0 k v)) := ⟨rfl, hr⟩
+
+theorem sim_lift {h1 h2 : Heap} (hr : Rel n0 k h1 h2) (r : Except PyExc PV) :
+    SimRes n0 k (liftPV r, h1) (liftPV r, h2) := by
+  refine ⟨?_, hr⟩
+  cases hl : liftPV r with
+  | error e => rfl
+  | ok v => simp only [Except.map]; rw [reloc_not_ref (liftPV_not_ref hl)]
+
+theorem sim_seqRep {h1 h2 : Heap} (hr : Rel n0 k h1 h2) (mk : List Val → Obj)
+    (hmk : ∀ l, mk (l.map (reloc n0 k)) = relocObj n0 k (mk l)) (xs : List Val) (n : PV) :
+    SimRes n0 k (seqRep h1 mk xs n) (seqRep h2 mk (xs.map (reloc n0 k)) n) := by
+  unfold seqRep
+  simp only [List.length_map]
+  split
+  · split
+    · exact sim_err hr _
+    · exact sim_alloc hr _ _ (by rw [repeatList_reloc, hmk])
+  · exact sim_err hr _
+
+
+theorem binSh_sim {h1 h2 : Heap} (hr : Rel n0 k h1 h2) (b : BinOp) (x y : Sh) :
+    SimRes n0 k (binSh b h1 x y) (binSh b h2 (relocSh n0 k x) (relocSh n0 k y)) := by
+  cases x with
+  | set f xs =>
+    cases y with
+    | set g ys =>
+      simp only [binSh, relocSh, setOp_reloc]
+      cases setOp b xs ys with
+      | none => exact sim_err hr _
+      | some zs => exact sim_alloc hr _ _ rfl
+    | _ => simp only [binSh, relocSh]; exact sim_err hr _
+  | other => cases y <;> simp only [binSh, relocSh] <;> exact sim_err hr _
+  | list xs =>
+    cases y <;> cases b <;> simp only [binSh, relocSh] <;>
+      first
+        | exact sim_err hr _
+        | exact sim_alloc hr _ _ (by simp [relocObj])
+        | exact sim_seqRep hr _ (fun l => rfl) _ _
+  | bytes xs =>
+    cases y <;> cases b <;> simp only [binSh, relocSh] <;>
+      first
+        | exact sim_err hr _
+        | exact sim_alloc hr _ _ (by simp [relocObj])
+        | exact sim_seqRep hr _ (fun l => rfl) _ _
+  | tuple xs =>
+    cases y <;> cases b <;> simp only [binSh, relocSh] <;>
+      first
+        | exact sim_err hr _
+        | exact sim_alloc hr _ _ (by simp [relocObj])
+        | exact sim_seqRep hr _ (fun l => rfl) _ _
+  | dict a =>
+    cases y <;> cases b <;> simp only [binSh, relocSh] <;>
+      first
+        | exact sim_err hr _
+        | exact sim_alloc hr _ _ (by simp only [relocObj]; rw [← dictMerge_reloc])
+  | scalar p =>
+    cases y <;> cases b <;> simp only [binSh, relocSh] <;>
+      first
+        | exact sim_err hr _
+        | exact sim_seqRep hr _ (fun l => rfl) _ _
+        | (split <;> exact sim_err hr _)
+
+theorem aBin_sim {h1 h2 : Heap} (hr : Rel n0 k h1 h2) (b : BinOp) (x y : Val) :
+    SimRes n0 k (aBin b h1 x y) (aBin b h2 (reloc n0 k x) (reloc n0 k y)) := by
+  unfold aBin
+  rw [scalarPV_reloc, scalarPV_reloc, shapeOf_reloc hr, shapeOf_reloc hr]
+  split
+  · exact sim_lift hr _
+  · exact binSh_sim hr b _ _
+
+theorem aUn_sim {h1 h2 : Heap} (hr : Rel n0 k h1 h2) (u : UnOp) (x : Val) :
+    SimRes n0 k (aUn u h1 x) (aUn u h2 (reloc n0 k x)) := by
+  unfold aUn
+  rw [scalarPV_reloc, shapeOf_reloc hr]
+  split
+  · exact sim_lift hr _
+  · cases shapeOf h1 x <;> simp only [relocSh] <;> exact sim_err hr _
+
+theorem seqItem_sim {h1 h2 : Heap} (hr : Rel n0 k h1 h2) (xs : List Val) (key : Val) :
+    SimRes n0 k (seqItem h1 xs key) (seqItem h2 (xs.map (reloc n0 k)) (reloc n0 k key)) := by
+  cases key <;> simp only [seqItem, reloc, pyIndex_reloc] <;>
+    first
+      | exact sim_err hr _
+      | (cases pyIndex xs _ <;> first | exact sim_err hr _ | exact sim_ok hr _)
+
+theorem aGetitem_sim {h1 h2 : Heap} (hr : Rel n0 k h1 h2) (cur key : Val) :
+    SimRes n0 k (aGetitem h1 cur key) (aGetitem h2 (reloc n0 k cur) (reloc n0 k key)) := by
+  unfold aGetitem
+  rw [shapeOf_reloc hr]
+  cases shapeOf h1 cur with
+  | dict es =>
+    simp only [relocSh, keyCheck_reloc hr]
+    cases keyCheck h1 key with
+    | some e => exact sim_err hr _
+    | none =>
+      simp only
+      rw [dictLookup_reloc (n0 := n0) (k := k) es key]
+      cases dictLookup es key <;> first | exact sim_err hr _ | exact sim_ok hr _
+  | list xs => exact seqItem_sim hr xs key
+  | tuple xs => exact seqItem_sim hr xs key
+  | bytes xs => exact seqItem_sim hr xs key
+  | set f xs => exact sim_err hr _
+  | scalar p => cases p <;> exact sim_err hr _
+  | other => exact sim_err hr _
+
+
+/-! ### evaluations commute with relocation -/
+
+
+def SimOut (n0 k : Nat) (o1 o2 : Out) : Prop :=
+  o2.1 = o1.1.map (reloc n0 k) ∧ Rel n0 k o1.2 o2.2
+
+def SimOuts (n0 k : Nat) (o1 o2 : Except Err6 (List Val) × Heap) : Prop :=
+  o2.1 = o1.1.map (List.map (reloc n0 k)) ∧ Rel n0 k o1.2 o2.2
+
+def SimPairs (n0 k : Nat) (o1 o2 : Except Err6 (List (Val × Val)) × Heap) : Prop :=
+  o2.1 = o1.1.map (List.map (relocPair n0 k)) ∧ Rel n0 k o1.2 o2.2
+
+theorem SimOut.cases {o1 o2 : Out} (h : SimOut n0 k o1 o2) :
+    (∃ e a b, o1 = (.error e, a) ∧ o2 = (.error e, b) ∧ Rel n0 k a b) ∨
+    (∃ v a b, o1 = (.ok v, a) ∧ o2 = (.ok (reloc n0 k v), b) ∧ Rel n0 k a b) := by
+  obtain ⟨r1, a⟩ := o1
+  obtain ⟨r2, b⟩ := o2
+  obtain ⟨hv, hr⟩ := h
+  simp only at hv hr
+  subst hv
+  cases r1 with
+  | error e => exact Or.inl ⟨e, a, b, rfl, rfl, hr⟩
+  | ok v => exact Or.inr ⟨v, a, b, rfl, rfl, hr⟩
+
+theorem SimOuts.cases {o1 o2 : Except Err6 (List Val) × Heap} (h : SimOuts n0 k o1 o2) :
+    (∃ e a b, o1 = (.error e, a) ∧ o2 = (.error e, b) ∧ Rel n0 k a b) ∨
+    (∃ v a b, o1 = (.ok v, a) ∧ o2 = (.ok (v.map (reloc n0 k)), b) ∧ Rel n0 k a b) := by
+  obtain ⟨r1, a⟩ := o1
+  obtain ⟨r2, b⟩ := o2
+  obtain ⟨hv, hr⟩ := h
+  simp only at hv hr
+  subst hv
+  cases r1 with
+  | error e => exact Or.inl ⟨e, a, b, rfl, rfl, hr⟩
+  | ok v => exact Or.inr ⟨v, a, b, rfl, rfl, hr⟩
+
+theorem SimPairs.cases {o1 o2 : Except Err6 (List (Val × Val)) × Heap} (h : SimPairs n0 k o1 o2) :
+    (∃ e a b, o1 = (.error e, a) ∧ o2 = (.error e, b) ∧ Rel n0 k a b) ∨
+    (∃ v a b, o1 = (.ok v, a) ∧ o2 = (.ok (v.map (relocPair n0 k)), b) ∧ Rel n0 k a b) := by
+  obtain ⟨r1, a⟩ := o1
+  obtain ⟨r2, b⟩ := o2
+  obtain ⟨hv, hr⟩ := h
+  simp only at hv hr
+  subst hv
+  cases r1 with
+  | error e => exact Or.inl ⟨e, a, b, rfl, rfl, hr⟩
+  | ok v => exact Or.inr ⟨v, a, b, rfl, rfl, hr⟩
+
+theorem simOut_err {h1 h2 : Heap} (hr : Rel n0 k h1 h2) (e : Err6) : SimOut n0 k (.error e, h1) (.error e, h2) :=
+  ⟨rfl, hr⟩
+
+theorem simOut_ok {h1 h2 : Heap} (hr : Rel n0 k h1 h2) (v : Val) :
+    SimOut n0 k (.ok v, h1) (.ok (reloc n0 k v), h2) := ⟨rfl, hr⟩
+
+theorem guard6_sim {r1 r2 : Res} (h : SimRes n0 k r1 r2) : SimOut n0 k (guard6 r1) (guard6 r2) := by
+  obtain ⟨v1, a⟩ := r1
+  obtain ⟨v2, b⟩ := r2
+  obtain ⟨hv, hr⟩ := h
+  simp only at hv hr
+  subst hv
+  cases v1 with
+  | ok v => exact ⟨rfl, hr⟩
+  | error e =>
+    simp only [guard6, Except.map]
+    split <;> exact ⟨rfl, hr⟩
+
+theorem raise6_sim {h1 h2 : Heap} (hr : Rel n0 k h1 h2) (e : PyExc) : SimOut n0 k (raise6 h1 e) (raise6 h2 e) := by
+  unfold raise6
+  split <;> exact ⟨rfl, hr⟩
+
+theorem applyOp_sim {h1 h2 : Heap} (hr : Rel n0 k h1 h2) (op : TOp) (cur arg : Val) :
+    SimOut n0 k (applyOp op h1 cur arg) (applyOp op h2 (reloc n0 k cur) (reloc n0 k arg)) := by
+  cases op with
+  | item => exact guard6_sim (aGetitem_sim hr cur arg)
+  | bin b => exact guard6_sim (aBin_sim hr b cur arg)
+  | un u => exact guard6_sim (aUn_sim hr u cur)
+
+theorem new_ref_sim {h1 h2 : Heap} (hr : Rel n0 k h1 h2) (o : Obj) :
+    SimOut n0 k (.ok (.ref h1.length), h1 ++ [o]) (.ok (.ref h2.length), h2 ++ [relocObj n0 k o]) := by
+  refine ⟨?_, hr.push o⟩
+  simp only [Except.map]
+  rw [hr.new_addr]
+
+theorem mkSeq_sim {h1 h2 : Heap} (hr : Rel n0 k h1 h2) (kind : SeqKind) (vs : List Val) :
+    SimOut n0 k (mkSeq kind h1 vs) (mkSeq kind h2 (vs.map (reloc n0 k))) := by
+  cases kind <;> simp only [mkSeq, keysCheck_reloc hr]
+  · exact new_ref_sim hr _
+  · exact new_ref_sim hr _
+  · cases keysCheck h1 vs with
+    | some e => exact raise6_sim hr e
+    | none =>
+      have := dedupK_reloc (n0 := n0) (k := k) vs []
+      simp only [List.map_nil] at this
+      simp only [this]
+      exact new_ref_sim hr _
+  · cases keysCheck h1 vs with
+    | some e => exact raise6_sim hr e
+    | none =>
+      have := dedupK_reloc (n0 := n0) (k := k) vs []
+      simp only [List.map_nil] at this
+      simp only [this]
+      exact new_ref_sim hr _
+
+theorem mkDict6_sim {h1 h2 : Heap} (hr : Rel n0 k h1 h2) (kvs : List (Val × Val)) :
+    SimOut n0 k (mkDict6 h1 kvs) (mkDict6 h2 (kvs.map (relocPair n0 k))) := by
+  unfold mkDict6
+  have hk : (kvs.map (relocPair n0 k)).map (·.1) = (kvs.map (·.1)).map (reloc n0 k) := by
+    simp only [List.map_map]; rfl
+  rw [hk, keysCheck_reloc hr]
+  cases keysCheck h1 (kvs.map (·.1)) with
+  | some e => exact raise6_sim hr e
+  | none =>
+    have := dictMerge_reloc (n0 := n0) (k := k) kvs []
+    simp only [List.map_nil] at this
+    simp only [this]
+    exact new_ref_sim hr _
+
+theorem iterItems_reloc {h1 h2 : Heap} (hr : Rel n0 k h1 h2) (v : Val) :
+    iterItems h2 (reloc n0 k v) = (iterItems h1 v).map (List.map (reloc n0 k)) := by
+  unfold iterItems
+  rw [shapeOf_reloc hr]
+  cases shapeOf h1 v <;> simp only [relocSh, Except.map, List.map_map] <;> rfl
+
+theorem mapRun_sim (f : Val → Heap → Out)
+    (hf : ∀ x h1 h2, Rel n0 k h1 h2 → SimOut n0 k (f x h1) (f (reloc n0 k x) h2)) :
+    ∀ (xs : List Val) (h1 h2 : Heap), Rel n0 k h1 h2 →
+      SimOuts n0 k (mapRun f xs h1) (mapRun f (xs.map (reloc n0 k)) h2) := by
+  intro xs
+  induction xs with
+  | nil => intro h1 h2 hr; exact ⟨rfl, hr⟩
+  | cons x r ih =>
+    intro h1 h2 hr
+    simp only [List.map_cons, mapRun]
+    rcases (hf x h1 h2 hr).cases with ⟨e, a, b, e1, e2, hr'⟩ | ⟨v, a, b, e1, e2, hr'⟩
+    · rw [e1, e2]; exact ⟨rfl, hr'⟩
+    · rw [e1, e2]
+      simp only
+      rcases (ih a b hr').cases with ⟨e, a', b', e1', e2', hr''⟩ | ⟨vs, a', b', e1', e2', hr''⟩
+      · rw [e1', e2']; exact ⟨rfl, hr''⟩
+      · rw [e1', e2']; exact ⟨rfl, hr''⟩
+
+theorem lit_closed_reloc {v : Val} (h : (Sp.lit v).closed n0 = true) : reloc n0 k v = v := by
+  cases v with
+  | ref a =>
+    simp only [Sp.closed, decide_eq_true_eq] at h
+    simp only [reloc, relocAddr, h, if_true]
+  | _ => rfl
+
+
+mutual
+theorem evalArg_sim : ∀ (sp : Sp), sp.closed n0 = true → ∀ (tgt : Val) (h1 h2 : Heap), Rel n0 k h1 h2 →
+    SimOut n0 k (evalArg sp tgt h1) (evalArg sp (reloc n0 k tgt) h2)
+  | .lit v, hc, tgt, h1, h2, hr => by
+    simp only [evalArg]
+    have := simOut_ok hr v
+    rwa [lit_closed_reloc hc] at this
+  | .t steps, hc, tgt, h1, h2, hr => by
+    simp only [evalArg]
+    exact tLoop_sim steps (by simpa [Sp.closed] using hc) tgt tgt h1 h2 hr
+  | .seq kind xs, hc, tgt, h1, h2, hr => by
+    simp only [evalArg]
+    rcases (evalArgs_sim xs (by simpa [Sp.closed] using hc) tgt h1 h2 hr).cases with
+      ⟨e, a, b, e1, e2, hr'⟩ | ⟨vs, a, b, e1, e2, hr'⟩
+    · rw [e1, e2]; exact simOut_err hr' e
+    · rw [e1, e2]; exact mkSeq_sim hr' kind vs
+  | .dict es, hc, tgt, h1, h2, hr => by
+    simp only [evalArg]
+    rcases (evalArgPairs_sim es (by simpa [Sp.closed] using hc) tgt h1 h2 hr).cases with
+      ⟨e, a, b, e1, e2, hr'⟩ | ⟨vs, a, b, e1, e2, hr'⟩
+    · rw [e1, e2]; exact simOut_err hr' e
+    · rw [e1, e2]; exact mkDict6_sim hr' vs
+  | .coalesce subs hd d, hc, tgt, h1, h2, hr => by
+    simp only [evalArg]
+    have hc' : subs.closed n0 = true ∧ d.closed n0 = true := by simpa [Sp.closed] using hc
+    obtain ⟨hv, hr'⟩ := coalesceRun_sim subs hc'.1 tgt h1 h2 hr
+    rcases ho1 : coalesceRun subs tgt h1 with ⟨r1, a⟩
+    rcases ho2 : coalesceRun subs (reloc n0 k tgt) h2 with ⟨r2, b⟩
+    rw [ho1, ho2] at hv hr'
+    simp only at hv hr'
+    subst hv
+    cases r1 with
+    | some r => exact ⟨rfl, hr'⟩
+    | none =>
+      simp only [Option.map]
+      split
+      · exact evalArg_sim d hc'.2 tgt a b hr'
+      · exact simOut_err hr' _
+theorem evalAuto_sim : ∀ (sp : Sp), sp.closed n0 = true → ∀ (tgt : Val) (h1 h2 : Heap), Rel n0 k h1 h2 →
+    SimOut n0 k (evalAuto sp tgt h1) (evalAuto sp (reloc n0 k tgt) h2)
+  | .lit v, hc, tgt, h1, h2, hr => by
+    simp only [evalAuto]; exact simOut_err hr _
+  | .t steps, hc, tgt, h1, h2, hr => by
+    simp only [evalAuto]
+    exact tLoop_sim steps (by simpa [Sp.closed] using hc) tgt tgt h1 h2 hr
+  | .seq kind xs, hc, tgt, h1, h2, hr => by
+    simp only [evalAuto]
+    have hc' : xs.closed n0 = true := by simpa [Sp.closed] using hc
+    cases kind with
+    | list => exact listRun_sim xs hc' tgt h1 h2 hr
+    | tuple => exact chainRun_sim xs hc' tgt h1 h2 hr
+    | set => exact simOut_err hr _
+    | fset => exact simOut_err hr _
+  | .dict es, hc, tgt, h1, h2, hr => by
+    simp only [evalAuto]
+    rcases (evalAutoPairs_sim es (by simpa [Sp.closed] using hc) tgt h1 h2 hr).cases with
+      ⟨e, a, b, e1, e2, hr'⟩ | ⟨vs, a, b, e1, e2, hr'⟩
+    · rw [e1, e2]; exact simOut_err hr' e
+    · rw [e1, e2]; exact mkDict6_sim hr' vs
+  | .coalesce subs hd d, hc, tgt, h1, h2, hr => by
+    simp only [evalAuto]
+    have hc' : subs.closed n0 = true ∧ d.closed n0 = true := by simpa [Sp.closed] using hc
+    obtain ⟨hv, hr'⟩ := coalesceRun_sim subs hc'.1 tgt h1 h2 hr
+    rcases ho1 : coalesceRun subs tgt h1 with ⟨r1, a⟩
+    rcases ho2 : coalesceRun subs (reloc n0 k tgt) h2 with ⟨r2, b⟩
+    rw [ho1, ho2] at hv hr'
+    simp only at hv hr'
+    subst hv
+    cases r1 with
+    | some r => exact ⟨rfl, hr'⟩
+    | none =>
+      simp only [Option.map]
+      split
+      · exact evalArg_sim d hc'.2 tgt a b hr'
+      · exact simOut_err hr' _
+theorem evalArgs_sim : ∀ (xs : Sps), xs.closed n0 = true → ∀ (tgt : Val) (h1 h2 : Heap), Rel n0 k h1 h2 →
+    SimOuts n0 k (evalArgs xs tgt h1) (evalArgs xs (reloc n0 k tgt) h2)
+  | .nil, _, tgt, h1, h2, hr => by simp only [evalArgs]; exact ⟨rfl, hr⟩
+  | .cons x r, hc, tgt, h1, h2, hr => by
+    simp only [evalArgs]
+    have hc' : x.closed n0 = true ∧ r.closed n0 = true := by simpa [Sps.closed] using hc
+    rcases (evalArg_sim x hc'.1 tgt h1 h2 hr).cases with ⟨e, a, b, e1, e2, hr'⟩ | ⟨v, a, b, e1, e2, hr'⟩
+    · rw [e1, e2]; exact ⟨rfl, hr'⟩
+    · rw [e1, e2]
+      simp only
+      rcases (evalArgs_sim r hc'.2 tgt a b hr').cases with ⟨e, a2, b2, f1, f2, hr2⟩ | ⟨vs, a2, b2, f1, f2, hr2⟩
+      · rw [f1, f2]; exact ⟨rfl, hr2⟩
+      · rw [f1, f2]; exact ⟨rfl, hr2⟩
+theorem evalArgPairs_sim : ∀ (es : Pairs), es.closed n0 = true → ∀ (tgt : Val) (h1 h2 : Heap), Rel n0 k h1 h2 →
+    SimPairs n0 k (evalArgPairs es tgt h1) (evalArgPairs es (reloc n0 k tgt) h2)
+  | .nil, _, tgt, h1, h2, hr => by simp only [evalArgPairs]; exact ⟨rfl, hr⟩
+  | .cons kk v r, hc, tgt, h1, h2, hr => by
+    simp only [evalArgPairs]
+    have hc' : (kk.closed n0 = true ∧ v.closed n0 = true) ∧ r.closed n0 = true := by simpa [Pairs.closed] using hc
+    rcases (evalArg_sim kk hc'.1.1 tgt h1 h2 hr).cases with ⟨e, a, b, e1, e2, hr'⟩ | ⟨kv, a, b, e1, e2, hr'⟩
+    · rw [e1, e2]; exact ⟨rfl, hr'⟩
+    · rw [e1, e2]
+      simp only
+      rcases (evalArg_sim v hc'.1.2 tgt a b hr').cases with ⟨e, a2, b2, f1, f2, hr2⟩ | ⟨vv, a2, b2, f1, f2, hr2⟩
+      · rw [f1, f2]; exact ⟨rfl, hr2⟩
+      · rw [f1, f2]
+        simp only
+        rcases (evalArgPairs_sim r hc'.2 tgt a2 b2 hr2).cases with
+          ⟨e, a3, b3, g1, g2, hr3⟩ | ⟨kvs, a3, b3, g1, g2, hr3⟩
+        · rw [g1, g2]; exact ⟨rfl, hr3⟩
+        · rw [g1, g2]; exact ⟨rfl, hr3⟩
+theorem evalAutoPairs_sim : ∀ (es : Pairs), es.closed n0 = true → ∀ (tgt : Val) (h1 h2 : Heap), Rel n0 k h1 h2 →
+    SimPairs n0 k (evalAutoPairs es tgt h1) (evalAutoPairs es (reloc n0 k tgt) h2)
+  | .nil, _, tgt, h1, h2, hr => by simp only [evalAutoPairs]; exact ⟨rfl, hr⟩
+  | .cons kk v r, hc, tgt, h1, h2, hr => by
+    simp only [evalAutoPairs]
+    have hc' : (kk.closed n0 = true ∧ v.closed n0 = true) ∧ r.closed n0 = true := by simpa [Pairs.closed] using hc
+    rcases (evalAuto_sim v hc'.1.2 tgt h1 h2 hr).cases with ⟨e, a, b, e1, e2, hr'⟩ | ⟨vv, a, b, e1, e2, hr'⟩
+    · rw [e1, e2]; exact ⟨rfl, hr'⟩
+    · rw [e1, e2]
+      simp only
+      rcases (fieldRun_sim kk hc'.1.1 tgt a b hr').cases with ⟨e, a2, b2, f1, f2, hr2⟩ | ⟨kv, a2, b2, f1, f2, hr2⟩
+      · rw [f1, f2]; exact ⟨rfl, hr2⟩
+      · rw [f1, f2]
+        simp only
+        rcases (evalAutoPairs_sim r hc'.2 tgt a2 b2 hr2).cases with
+          ⟨e, a3, b3, g1, g2, hr3⟩ | ⟨kvs, a3, b3, g1, g2, hr3⟩
+        · rw [g1, g2]; exact ⟨rfl, hr3⟩
+        · rw [g1, g2]; exact ⟨rfl, hr3⟩
+theorem fieldRun_sim : ∀ (sp : Sp), sp.closed n0 = true → ∀ (tgt : Val) (h1 h2 : Heap), Rel n0 k h1 h2 →
+    SimOut n0 k (fieldRun sp tgt h1) (fieldRun sp (reloc n0 k tgt) h2)
+  | .lit v, hc, tgt, h1, h2, hr => by
+    simp only [fieldRun]
+    have := simOut_ok hr v
+    rwa [lit_closed_reloc hc] at this
+  | .t steps, hc, tgt, h1, h2, hr => by
+    simp only [fieldRun]
+    exact tLoop_sim steps (by simpa [Sp.closed] using hc) tgt tgt h1 h2 hr
+  | .seq _ _, _, tgt, h1, h2, hr => by simp only [fieldRun]; exact simOut_err hr _
+  | .dict _, _, tgt, h1, h2, hr => by simp only [fieldRun]; exact simOut_err hr _
+  | .coalesce _ _ _, _, tgt, h1, h2, hr => by simp only [fieldRun]; exact simOut_err hr _
+theorem listRun_sim : ∀ (xs : Sps), xs.closed n0 = true → ∀ (tgt : Val) (h1 h2 : Heap), Rel n0 k h1 h2 →
+    SimOut n0 k (listRun xs tgt h1) (listRun xs (reloc n0 k tgt) h2)
+  | .nil, _, tgt, h1, h2, hr => by simp only [listRun]; exact simOut_err hr _
+  | .cons sub r, hc, tgt, h1, h2, hr => by
+    simp only [listRun]
+    have hc' : sub.closed n0 = true ∧ r.closed n0 = true := by simpa [Sps.closed] using hc
+    cases r with
+    | cons _ _ => exact simOut_err hr _
+    | nil =>
+      simp only [iterItems_reloc hr]
+      cases iterItems h1 tgt with
+      | error e => exact simOut_err hr e
+      | ok items =>
+        simp only [Except.map]
+        rcases (mapRun_sim (evalAuto sub) (fun x a b hab => evalAuto_sim sub hc'.1 x a b hab) items h1 h2 hr).cases with
+          ⟨e, a, b, e1, e2, hr'⟩ | ⟨vs, a, b, e1, e2, hr'⟩
+        · rw [e1, e2]; exact simOut_err hr' e
+        · rw [e1, e2]; exact new_ref_sim hr' (.list "list" vs)
+theorem chainRun_sim : ∀ (xs : Sps), xs.closed n0 = true → ∀ (tgt : Val) (h1 h2 : Heap), Rel n0 k h1 h2 →
+    SimOut n0 k (chainRun xs tgt h1) (chainRun xs (reloc n0 k tgt) h2)
+  | .nil, _, tgt, h1, h2, hr => by simp only [chainRun]; exact simOut_ok hr tgt
+  | .cons x r, hc, tgt, h1, h2, hr => by
+    simp only [chainRun]
+    have hc' : x.closed n0 = true ∧ r.closed n0 = true := by simpa [Sps.closed] using hc
+    rcases (evalAuto_sim x hc'.1 tgt h1 h2 hr).cases with ⟨e, a, b, e1, e2, hr'⟩ | ⟨v, a, b, e1, e2, hr'⟩
+    · rw [e1, e2]; exact simOut_err hr' e
+    · rw [e1, e2]; exact chainRun_sim r hc'.2 v a b hr'
+theorem coalesceRun_sim : ∀ (xs : Sps), xs.closed n0 = true → ∀ (tgt : Val) (h1 h2 : Heap), Rel n0 k h1 h2 →
+    (coalesceRun xs (reloc n0 k tgt) h2).1 = (coalesceRun xs tgt h1).1.map (fun r => r.map (reloc n0 k)) ∧
+    Rel n0 k (coalesceRun xs tgt h1).2 (coalesceRun xs (reloc n0 k tgt) h2).2
+  | .nil, _, tgt, h1, h2, hr => by simp only [coalesceRun]; exact ⟨rfl, hr⟩
+  | .cons x r, hc, tgt, h1, h2, hr => by
+    simp only [coalesceRun]
+    have hc' : x.closed n0 = true ∧ r.closed n0 = true := by simpa [Sps.closed] using hc
+    rcases (evalAuto_sim x hc'.1 tgt h1 h2 hr).cases with ⟨e, a, b, e1, e2, hr'⟩ | ⟨v, a, b, e1, e2, hr'⟩
+    · rw [e1, e2]
+      cases e with
+      | glom c => exact coalesceRun_sim r hc'.2 tgt a b hr'
+      | raised c => exact ⟨rfl, hr'⟩
+      | unsupported => exact ⟨rfl, hr'⟩
+    · rw [e1, e2]; exact ⟨rfl, hr'⟩
+theorem tLoop_sim : ∀ (steps : Steps), steps.closed n0 = true → ∀ (tgt cur : Val) (h1 h2 : Heap), Rel n0 k h1 h2 →
+    SimOut n0 k (tLoop steps tgt cur h1) (tLoop steps (reloc n0 k tgt) (reloc n0 k cur) h2)
+  | .nil, _, tgt, cur, h1, h2, hr => by simp only [tLoop]; exact simOut_ok hr cur
+  | .cons op a r, hc, tgt, cur, h1, h2, hr => by
+    simp only [tLoop]
+    have hc' : a.closed n0 = true ∧ r.closed n0 = true := by simpa [Steps.closed] using hc
+    rcases (evalArg_sim a hc'.1 tgt h1 h2 hr).cases with ⟨e, x, y, e1, e2, hr'⟩ | ⟨av, x, y, e1, e2, hr'⟩
+    · rw [e1, e2]; exact simOut_err hr' e
+    · rw [e1, e2]
+      simp only
+      rcases (applyOp_sim hr' op cur av).cases with ⟨e, x2, y2, f1, f2, hr2⟩ | ⟨v, x2, y2, f1, f2, hr2⟩
+      · rw [f1, f2]; exact simOut_err hr2 e
+      · rw [f1, f2]; exact tLoop_sim r hc'.2 tgt v x2 y2 hr2
+end
+
+
+/-! ### a heap without dangling references, and what an observer sees -/
+
+theorem reloc_closed {v : Val} (h : Val.closed6 n0 v = true) : reloc n0 k v = v := by
+  cases v with
+  | ref a =>
+    simp only [Val.closed6, decide_eq_true_eq] at h
+    simp only [reloc, relocAddr, h, if_true]
+  | _ => rfl
+
+theorem map_reloc_closed {xs : List Val} (h : xs.all (Val.closed6 n0) = true) : xs.map (reloc n0 k) = xs := by
+  induction xs with
+  | nil => rfl
+  | cons x r ih =>
+    simp only [List.all_cons, Bool.and_eq_true] at h
+    simp only [List.map_cons, reloc_closed h.1, ih h.2]
+
+theorem relocObj_closed {o : Obj} (h : Obj.closed6 n0 o = true) : relocObj n0 k o = o := by
+  cases o with
+  | list c xs => simp only [relocObj, map_reloc_closed (by simpa [Obj.closed6] using h)]
+  | tuple c xs => simp only [relocObj, map_reloc_closed (by simpa [Obj.closed6] using h)]
+  | set c xs => simp only [relocObj, map_reloc_closed (by simpa [Obj.closed6] using h)]
+  | dict c es =>
+    simp only [relocObj, Obj.closed6] at h ⊢
+    congr 1
+    induction es with
+    | nil => rfl
+    | cons e r ih =>
+      simp only [List.all_cons, Bool.and_eq_true] at h
+      simp only [List.map_cons, reloc_closed h.1.1, reloc_closed h.1.2, ih h.2]
+  | inst c as =>
+    simp only [relocObj, Obj.closed6] at h ⊢
+    congr 1
+    induction as with
+    | nil => rfl
+    | cons e r ih =>
+      simp only [List.all_cons, Bool.and_eq_true] at h
+      simp only [List.map_cons, reloc_closed h.1, ih h.2]
+
+/-- a closed heap and the same heap with more objects after it hold the same objects -/
+theorem rel_init (h g : Heap) (hc : heapClosed h = true) : Rel h.length g.length h (h ++ g) := by
+  refine ⟨Nat.le_refl _, by simp, ?_⟩
+  intro a ha
+  have hra : relocAddr h.length g.length a = a := by simp [relocAddr, ha]
+  rw [hra, List.getElem?_append_left ha]
+  have hget : h[a]? = some h[a] := List.getElem?_eq_getElem ha
+  rw [hget]
+  simp only [Option.map]
+  have : Obj.closed6 h.length h[a] = true := by
+    unfold heapClosed at hc
+    rw [List.all_eq_true] at hc
+    exact hc _ (List.getElem_mem ha)
+  rw [relocObj_closed this]
+
+theorem optMapM_map_congr {α β γ : Type} (f : β → Option γ) (f' : α → Option γ) (g : α → β)
+    (hfg : ∀ x, f (g x) = f' x) : ∀ (xs : List α), optMapM f (xs.map g) = optMapM f' xs := by
+  intro xs
+  induction xs with
+  | nil => rfl
+  | cons x r ih => simp only [List.map_cons, optMapM, hfg, ih]
+
+theorem view6_reloc {h1 h2 : Heap} (hr : Rel n0 k h1 h2) :
+    ∀ (fuel : Nat) (v : Val), view6 h2 fuel (reloc n0 k v) = view6 h1 fuel v := by
+  intro fuel
+  induction fuel with
+  | zero =>
+    intro v
+    unfold view6
+    rw [scalarPV_reloc]
+    cases v <;> rfl
+  | succ fuel ih =>
+    intro v
+    unfold view6
+    rw [scalarPV_reloc]
+    cases hs : scalarPV v with
+    | some p => rfl
+    | none =>
+      cases v with
+      | ref a =>
+        simp only [reloc]
+        rw [hr.get a]
+        have hm := optMapM_map_congr (view6 h2 fuel) (view6 h1 fuel) (reloc n0 k) ih
+        cases h1[a]? with
+        | none => rfl
+        | some o =>
+          cases o with
+          | list c xs => simp only [Option.map, relocObj, hm]
+          | tuple c xs => simp only [Option.map, relocObj, hm]
+          | set c xs => simp only [Option.map, relocObj, hm]
+          | dict c es =>
+            simp only [Option.map, relocObj]
+            have h1' : (es.map (fun e => (reloc n0 k e.1, reloc n0 k e.2))).map (·.1) = (es.map (·.1)).map (reloc n0 k) := by
+              simp only [List.map_map]; rfl
+            have h2' : (es.map (fun e => (reloc n0 k e.1, reloc n0 k e.2))).map (·.2) = (es.map (·.2)).map (reloc n0 k) := by
+              simp only [List.map_map]; rfl
+            rw [h1', h2', hm, hm]
+          | inst c as =>
+            simp only [Option.map, relocObj]
+            have h1' : (as.map (fun e => (e.1, reloc n0 k e.2))).map (·.1) = as.map (·.1) := by
+              simp only [List.map_map]; rfl
+            have h2' : (as.map (fun e => (e.1, reloc n0 k e.2))).map (·.2) = (as.map (·.2)).map (reloc n0 k) := by
+              simp only [List.map_map]; rfl
+            rw [h1', h2', hm]
+      | _ => simp [scalarPV] at hs
+
+/-- **evaluating in a heap that holds more objects gives the same outcome**, as far as an observer
+    can tell (the tree the value denotes, or the error) -/
+theorem outView_more (sp : Sp) (tgt : Val) (h g : Heap) (fuel : Nat)
+    (hh : heapClosed h = true) (ht : Val.closed6 h.length tgt = true) (hs : sp.closed h.length = true) :
+    outView fuel (evalAuto sp tgt (h ++ g)) = outView fuel (evalAuto sp tgt h) := by
+  have hsim := evalAuto_sim sp hs tgt h (h ++ g) (rel_init h g hh)
+  rw [reloc_closed ht] at hsim
+  rcases hsim.cases with ⟨e, a, b, e1, e2, hr'⟩ | ⟨v, a, b, e1, e2, hr'⟩
+  · rw [e1, e2]; rfl
+  · rw [e1, e2]
+    simp only [outView, Except.map]
+    rw [view6_reloc hr']
+
 end Glom.C06
